@@ -501,10 +501,22 @@ func checkDecode(c decCase, r *h.Rec) error {
 		// exactly (02|03) || 0^32 for G1 and (02|03) || 0^64 for G2 (plus any
 		// trailing bytes): no curve point has x = 0; the library reads these as
 		// the point at infinity. Rejecting them would equally satisfy the
-		// property, so both outcomes are admitted - but if accepted the result
-		// must be the point at infinity, checked below like any other element.
+		// property, so both outcomes are admitted - but the two prefixes must be
+		// treated alike, and if accepted the result must be the point at
+		// infinity, checked below like any other element.
 		r.NT()
 		r.Label("compressed-x=0-infinity-convention")
+		sib := append([]byte{}, enc...)
+		sib[0] ^= 1
+		var serr error
+		if c.G == 1 {
+			_, serr = new(vh.G1).UnmarshalCompressed(sib)
+		} else {
+			_, serr = new(vh.G2).UnmarshalCompressed(sib)
+		}
+		if (serr == nil) != (derr == nil) {
+			return fmt.Errorf("%s: error %v, but the same string with the other prefix %02x: error %v; x = 0 is on neither curve, both spellings must be treated alike", desc, derr, sib[0], serr)
+		}
 		if derr != nil {
 			r.Label("compressed-x=0-rejected")
 			if rest != nil {
@@ -653,7 +665,7 @@ func TestC09_DecodeG1(t *testing.T) {
 }
 
 func TestC09_DecodeG2(t *testing.T) {
-	h.Prop(t, h.P{Name: "decode-g2", Quick: 400, Thorough: 12000, Journal: true}, genDec(2), checkDecode)
+	h.Prop(t, h.P{Name: "decode-g2", Quick: 600, Thorough: 12000, Journal: true}, genDec(2), checkDecode)
 }
 
 func TestC09_DecodeGT(t *testing.T) {
